@@ -19,6 +19,7 @@ def run(tier, t0, prop="C08"):
         if prop == "C08":
             c08.run_a(f, rep, cfg)
             c08.run_c(f, rep, cfg)
+            c08.run_params(f, rep, cfg)
         c08.run_b(f, rep, cfg)
         carry.run(f, rep, cfg)
         if prop == "C09":
@@ -39,6 +40,7 @@ def run(tier, t0, prop="C08"):
     if prop == "C08":
         rep.floor("montgomery_form_writes", 85)
         rep.floor("from_const_params_sites", 2)
+        rep.floor("residue_parameter_fields", 12)
     rep.floor("reduction_level_obligations", 20)
     rep.floor("carry_returning_calls_in_modular", 20)
     rep.floor("boxed_monty_bodies_interpreted", 40)
